@@ -73,7 +73,7 @@ def main():
         for sid in sids:
             meta = json.load(open(os.path.join(SEEDED, sid, "meta.json")))
             own = meta["property"]
-            pids = reg if a.all else ([own] if own in reg else [])
+            pids = reg if a.all else [p for p in [own] + list(meta.get("also_check", [])) if p in reg]
             jobs.append(ex.submit(run_one, sid, pids, a.tier))
         results = dict(j.result() for j in jobs)
     lines = ["# Seeded changes vs. registered checks", "", f"tier={a.tier}; each change applied to a scratch copy of /repo's src+plugins; `./check <PID> --root <scratch> --no-selftest`.", "", "| seeded | property | own check | reported by (rc=1) | first report |", "|---|---|---|---|---|"]
